@@ -71,6 +71,9 @@ def _render_list(t: Toks) -> str:
     aw = p_bool(t)
     esc = p_bool(t)
     obj = realize_list(ns)
+    if aw and esc:
+        # the defaults: the call a user makes (no private keyword)
+        return ok_str(str(obj.get_html_string(indent, eol)))
     return ok_str(str(obj.get_html_string(indent, eol, add_ws=aw, _escape_strings=esc)))
 
 
